@@ -451,6 +451,34 @@ theorem drain_writeToTunnel {w : Wg σ Pkt Net} {t : σ} {p : Pkt} {pl : Payload
     · simp [he] at h
     · simp [he] at h; rw [h]
 
+theorem acceptNew_peer (s : Server σ) (frm : Addr) (peer : Id) (t : σ) (q : List Net) (r : TunnResult Net)
+    (sd : SD) : (acceptNew s frm peer t q r sd).peer = some peer := by
+  cases r <;> rfl
+
+theorem acceptNew_net (s : Server σ) (frm : Addr) (peer : Id) (t : σ) (q : List Net) (r : TunnResult Net)
+    (sd : SD) : (acceptNew s frm peer t q r sd).net = q := by
+  cases r <;> rfl
+
+theorem acceptNew_forwarded {s : Server σ} {frm : Addr} {peer : Id} {t : σ} {q : List Net} {r : TunnResult Net}
+    {sd sd' : SD} {pl : Payload} (h : (acceptNew s frm peer t q r sd).res = .forwarded pl sd') :
+    r = .writeToTunnel pl ∧ sd = sd' := by
+  cases r with
+  | err e => simp [acceptNew] at h
+  | done => exact incomingPacketResult_forwarded h
+  | writeToNetwork n => exact incomingPacketResult_forwarded h
+  | writeToTunnel p => exact incomingPacketResult_forwarded h
+
+/-- either nothing was inserted, or the tunnel accepted the packet and the entry `(frm, ⟨peer, t⟩)` was inserted -/
+theorem acceptNew_srv (s : Server σ) (frm : Addr) (peer : Id) (t : σ) (q : List Net) (r : TunnResult Net)
+    (sd : SD) :
+    (acceptNew s frm peer t q r sd).srv = s ∨
+      ((∀ e, r ≠ .err e) ∧ (acceptNew s frm peer t q r sd).srv = { tunnels := s.tunnels.insert frm ⟨peer, t⟩ }) := by
+  cases r with
+  | err e => exact Or.inl rfl
+  | done => exact Or.inr ⟨fun e h => (by cases h), rfl⟩
+  | writeToNetwork n => exact Or.inr ⟨fun e h => (by cases h), rfl⟩
+  | writeToTunnel p => exact Or.inr ⟨fun e h => (by cases h), rfl⟩
+
 /-- Everything that can make `handle_incoming_packet_with_session` return `Forwarded`. -/
 theorem handleIncoming_forwarded {w : Wg σ Pkt Net} {authz : Id → Option SD} {s : Server σ} {pkt : Pkt}
     {frm : Addr} {pl : Payload} {sd : SD}
@@ -487,8 +515,9 @@ theorem handleIncoming_forwarded {w : Wg σ Pkt Net} {authz : Id → Option SD} 
           | none => simp [ha] at h
           | some sd0 =>
             simp only [ha] at h ⊢
-            obtain ⟨h1, h2⟩ := incomingPacketResult_forwarded h
-            refine ⟨peer, rfl, by rw [ha, h2], Or.inr ⟨?_, ?_, drain_writeToTunnel h1⟩⟩ <;> first | rfl | trivial
+            obtain ⟨h1, h2⟩ := acceptNew_forwarded h
+            refine ⟨peer, acceptNew_peer _ _ _ _ _ _ _, by rw [ha, h2], Or.inr ⟨?_, ?_, drain_writeToTunnel h1⟩⟩ <;>
+              first | rfl | trivial
 
 /-- network output of a tunnel (not a rate-limiter cookie) is produced only after the authorisation check -/
 theorem handleIncoming_net {w : Wg σ Pkt Net} {authz : Id → Option SD} {s : Server σ} {pkt : Pkt}
@@ -521,8 +550,8 @@ theorem handleIncoming_net {w : Wg σ Pkt Net} {authz : Id → Option SD} {s : S
           cases ha : authz peer with
           | none => simp [ha] at hn
           | some sd0 =>
-            simp only [ha] at hp
-            cases hp; simp [ha]
+            simp only [ha, acceptNew_peer, Option.some.injEq] at hp
+            subst hp; simp [ha]
 
 /-- Everything that can make `handle_outgoing_packet_with_session` return `Some`. -/
 theorem handleOutgoing_some {w : Wg σ Pkt Net} {authz : Id → Option SD} {s : Server σ} {payload : Payload}
@@ -585,12 +614,17 @@ theorem handleIncoming_owned {w : Wg σ Pkt Net} (hs : w.Sound) (authz : Id → 
           cases ha : authz peer with
           | none => exact ho
           | some sd0 =>
-            intro a t' hm
-            rcases AMap.mem_insert hm with e | e
-            · cases e
-              simp only [drain_fst]
-              exact hs.queued _ _ (hs.recv _ _ _ (hs.new peer frm))
-            · exact ho a t' e
+            simp only
+            rcases acceptNew_srv s frm peer (drain w (w.new peer frm) pkt).1 (drain w (w.new peer frm) pkt).2.1
+              (drain w (w.new peer frm) pkt).2.2 sd0 with e | ⟨_, e⟩
+            · rw [e]; exact ho
+            · rw [e]
+              intro a t' hm
+              rcases AMap.mem_insert hm with e | e
+              · cases e
+                simp only [drain_fst]
+                exact hs.queued _ _ (hs.recv _ _ _ (hs.new peer frm))
+              · exact ho a t' e
 
 theorem handleOutgoing_owned {w : Wg σ Pkt Net} (hs : w.Sound) (authz : Id → Option SD) {s : Server σ}
     (ho : s.Owned hs) (payload : Payload) (to : Addr) : (handleOutgoing w authz s payload to).srv.Owned hs := by
@@ -717,6 +751,300 @@ theorem step_flow {w : Wg σ Pkt Net} {s : Sys σ} {op : Op Pkt} {peer : Option 
 
 end
 
+/-! ## the tunnel table: one entry per remote address, and an entry never changes its peer static identity -/
+
+theorem AMap.insert_keys_nodup {α : Type} {m : AMap α} (h : (AMap.keys m).Nodup) (k : Nat) (v : α) :
+    (AMap.keys (AMap.insert m k v)).Nodup := by
+  simp only [AMap.insert, AMap.keys, List.map_cons, List.nodup_cons]
+  refine ⟨?_, AMap.keys_filter_nodup _ h⟩
+  intro hm
+  obtain ⟨v', _, hf⟩ := (AMap.mem_keys_filter _ _ k).mp hm
+  simp at hf
+
+section
+variable {σ Pkt Net SD : Type}
+
+theorem updateTimers_keys_sublist (w : Wg σ Pkt Net) (l : AMap (Tunnel σ)) :
+    List.Sublist (AMap.keys (l.foldr (fun (kt : Nat × Tunnel σ) (acc : AMap (Tunnel σ) × List (Addr × Net)) =>
+      let (tunn', o) := w.tick kt.2.tunn
+      let res := match o with
+        | some n => (kt.1, n) :: acc.2
+        | none => acc.2
+      if w.expired tunn' then (acc.1, res) else ((kt.1, { kt.2 with tunn := tunn' }) :: acc.1, res))
+      ([], [])).1) (AMap.keys l) := by
+  induction l with
+  | nil => simp [AMap.keys]
+  | cons x l ih =>
+    simp only [List.foldr_cons, AMap.keys, List.map_cons]
+    split
+    · exact List.Sublist.cons _ ih
+    · simp only [List.map_cons]
+      exact List.Sublist.cons_cons _ ih
+
+theorem handleIncoming_keys_nodup (w : Wg σ Pkt Net) (authz : Id → Option SD) {s : Server σ}
+    (h : (AMap.keys s.tunnels).Nodup) (pkt : Pkt) (frm : Addr) :
+    (AMap.keys (handleIncoming w authz s pkt frm).srv.tunnels).Nodup := by
+  unfold handleIncoming
+  cases w.verify pkt with
+  | cookie c => exact h
+  | err e => exact h
+  | ok =>
+    simp only
+    cases s.tunnels.get? frm with
+    | some t =>
+      simp only
+      cases authz t.peerStatic with
+      | none => exact h
+      | some sd0 => exact AMap.insert_keys_nodup h _ _
+    | none =>
+      simp only
+      cases w.initClaim pkt with
+      | none => exact h
+      | some c =>
+        cases c with
+        | error e => exact h
+        | ok peer =>
+          simp only
+          cases authz peer with
+          | none => exact h
+          | some sd0 =>
+            simp only
+            rcases acceptNew_srv s frm peer (drain w (w.new peer frm) pkt).1 (drain w (w.new peer frm) pkt).2.1
+              (drain w (w.new peer frm) pkt).2.2 sd0 with e | ⟨_, e⟩
+            · rw [e]; exact h
+            · rw [e]; exact AMap.insert_keys_nodup h _ _
+
+theorem handleOutgoing_keys_nodup (w : Wg σ Pkt Net) (authz : Id → Option SD) {s : Server σ}
+    (h : (AMap.keys s.tunnels).Nodup) (pl : Payload) (to : Addr) :
+    (AMap.keys (handleOutgoing w authz s pl to).srv.tunnels).Nodup := by
+  unfold handleOutgoing
+  cases s.tunnels.get? to with
+  | none => exact h
+  | some t =>
+    simp only
+    cases authz t.peerStatic with
+    | none => exact h
+    | some sd0 => exact AMap.insert_keys_nodup h _ _
+
+theorem step_tunnels_nodup {w : Wg σ Pkt Net} {s : Sys σ} (h : (AMap.keys s.srv.tunnels).Nodup) (op : Op Pkt) :
+    (AMap.keys (step w s op).1.srv.tunnels).Nodup := by
+  cases op with
+  | register k i l => exact h
+  | advance d => exact h
+  | purge => exact h
+  | incoming frm pkt => exact handleIncoming_keys_nodup w _ h pkt frm
+  | outgoing to pl => exact handleOutgoing_keys_nodup w _ h pl to
+  | tick => exact List.Nodup.sublist (updateTimers_keys_sublist w s.srv.tunnels) h
+
+theorem run_tunnels_nodup {w : Wg σ Pkt Net} {s : Sys σ} (h : (AMap.keys s.srv.tunnels).Nodup)
+    (ops : List (Op Pkt)) : (AMap.keys (run w s ops).srv.tunnels).Nodup := by
+  induction ops generalizing s with
+  | nil => exact h
+  | cons op ops ih => exact ih (step_tunnels_nodup h op)
+
+theorem handleIncoming_peer_stable (w : Wg σ Pkt Net) (authz : Id → Option SD) (s : Server σ) (pkt : Pkt)
+    (frm a : Addr) (t t' : Tunnel σ) (h : s.tunnels.get? a = some t)
+    (h' : (handleIncoming w authz s pkt frm).srv.tunnels.get? a = some t') : t'.peerStatic = t.peerStatic := by
+  unfold handleIncoming at h'
+  cases hv : w.verify pkt with
+  | cookie c => simp only [hv] at h'; rw [h] at h'; cases h'; rfl
+  | err e => simp only [hv] at h'; rw [h] at h'; cases h'; rfl
+  | ok =>
+    simp only [hv] at h'
+    cases ht : s.tunnels.get? frm with
+    | some t0 =>
+      simp only [ht] at h'
+      cases ha : authz t0.peerStatic with
+      | none => simp only [ha] at h'; rw [h] at h'; cases h'; rfl
+      | some sd0 =>
+        simp only [ha, AMap.get?_insert] at h'
+        by_cases hfa : frm = a
+        · subst hfa
+          simp only [if_true, Option.some.injEq] at h'
+          rw [ht] at h; cases h; rw [← h']
+        · simp only [hfa, if_false] at h'
+          rw [h] at h'; cases h'; rfl
+    | none =>
+      simp only [ht] at h'
+      cases hc : w.initClaim pkt with
+      | none => simp only [hc] at h'; rw [h] at h'; cases h'; rfl
+      | some c =>
+        cases c with
+        | error e => simp only [hc] at h'; rw [h] at h'; cases h'; rfl
+        | ok peer =>
+          simp only [hc] at h'
+          cases ha : authz peer with
+          | none => simp only [ha] at h'; rw [h] at h'; cases h'; rfl
+          | some sd0 =>
+            simp only [ha] at h'
+            rcases acceptNew_srv s frm peer (drain w (w.new peer frm) pkt).1 (drain w (w.new peer frm) pkt).2.1
+              (drain w (w.new peer frm) pkt).2.2 sd0 with e | ⟨_, e⟩
+            · rw [e, h] at h'; cases h'; rfl
+            · rw [e] at h'
+              simp only [AMap.get?_insert] at h'
+              by_cases hfa : frm = a
+              · subst hfa; rw [ht] at h; cases h
+              · simp only [hfa, if_false] at h'
+                rw [h] at h'; cases h'; rfl
+
+theorem handleOutgoing_peer_stable (w : Wg σ Pkt Net) (authz : Id → Option SD) (s : Server σ) (pl : Payload)
+    (to a : Addr) (t t' : Tunnel σ) (h : s.tunnels.get? a = some t)
+    (h' : (handleOutgoing w authz s pl to).srv.tunnels.get? a = some t') : t'.peerStatic = t.peerStatic := by
+  unfold handleOutgoing at h'
+  cases ht : s.tunnels.get? to with
+  | none => simp only [ht] at h'; rw [h] at h'; cases h'; rfl
+  | some t0 =>
+    simp only [ht] at h'
+    cases ha : authz t0.peerStatic with
+    | none => simp only [ha] at h'; rw [h] at h'; cases h'; rfl
+    | some sd0 =>
+      simp only [ha, AMap.get?_insert] at h'
+      by_cases hfa : to = a
+      · subst hfa
+        simp only [if_true, Option.some.injEq] at h'
+        rw [ht] at h; cases h; rw [← h']
+      · simp only [hfa, if_false] at h'
+        rw [h] at h'; cases h'; rfl
+
+theorem step_peer_stable {w : Wg σ Pkt Net} {s : Sys σ} (hn : (AMap.keys s.srv.tunnels).Nodup) (op : Op Pkt)
+    (a : Addr) (t t' : Tunnel σ) (h : s.srv.tunnels.get? a = some t)
+    (h' : (step w s op).1.srv.tunnels.get? a = some t') : t'.peerStatic = t.peerStatic := by
+  cases op with
+  | register k i l => simp only [step] at h'; rw [h] at h'; cases h'; rfl
+  | advance d => simp only [step] at h'; rw [h] at h'; cases h'; rfl
+  | purge => simp only [step] at h'; rw [h] at h'; cases h'; rfl
+  | incoming frm pkt => exact handleIncoming_peer_stable w _ s.srv pkt frm a t t' h h'
+  | outgoing to pl => exact handleOutgoing_peer_stable w _ s.srv pl to a t t' h h'
+  | tick =>
+    simp only [step, updateTimers] at h'
+    obtain ⟨t0, hm, hp, _⟩ := updateTimers_mem (w := w) s.srv.tunnels a t' (AMap.mem_of_get? h')
+    have := AMap.get?_of_mem hn hm
+    rw [h] at this; cases this
+    exact hp
+
+end
+
+/-! ## where tunnel entries come from -/
+
+section
+variable {σ Pkt Net SD : Type}
+
+theorem drain_not_err {w : Wg σ Pkt Net} {t : σ} {p : Pkt} (h : ∀ e, (drain w t p).2.2 ≠ .err e) :
+    ∀ e, (w.recv t p).2 ≠ .err e := by
+  intro e he
+  apply h e
+  simp [drain, he]
+
+/-- a new entry in the tunnel table comes from a datagram, sent from that address, that the fresh tunnel accepted -/
+theorem handleIncoming_creates {w : Wg σ Pkt Net} (hs : w.Sound) (authz : Id → Option SD) (s : Server σ) (pkt : Pkt)
+    (frm a : Addr) (t' : Tunnel σ) (h : s.tunnels.get? a = none)
+    (h' : (handleIncoming w authz s pkt frm).srv.tunnels.get? a = some t') :
+    a = frm ∧ w.signer pkt = some t'.peerStatic := by
+  unfold handleIncoming at h'
+  cases hv : w.verify pkt with
+  | cookie c => simp only [hv] at h'; rw [h] at h'; cases h'
+  | err e => simp only [hv] at h'; rw [h] at h'; cases h'
+  | ok =>
+    simp only [hv] at h'
+    cases ht : s.tunnels.get? frm with
+    | some t0 =>
+      simp only [ht] at h'
+      cases ha : authz t0.peerStatic with
+      | none => simp only [ha] at h'; rw [h] at h'; cases h'
+      | some sd0 =>
+        simp only [ha, AMap.get?_insert] at h'
+        by_cases hfa : frm = a
+        · subst hfa; rw [ht] at h; cases h
+        · simp only [hfa, if_false] at h'; rw [h] at h'; cases h'
+    | none =>
+      simp only [ht] at h'
+      cases hc : w.initClaim pkt with
+      | none => simp only [hc] at h'; rw [h] at h'; cases h'
+      | some c =>
+        cases c with
+        | error e => simp only [hc] at h'; rw [h] at h'; cases h'
+        | ok peer =>
+          simp only [hc] at h'
+          cases ha : authz peer with
+          | none => simp only [ha] at h'; rw [h] at h'; cases h'
+          | some sd0 =>
+            simp only [ha] at h'
+            rcases acceptNew_srv s frm peer (drain w (w.new peer frm) pkt).1 (drain w (w.new peer frm) pkt).2.1
+              (drain w (w.new peer frm) pkt).2.2 sd0 with e | ⟨hne, e⟩
+            · rw [e, h] at h'; cases h'
+            · rw [e] at h'
+              simp only [AMap.get?_insert] at h'
+              by_cases hfa : frm = a
+              · simp only [hfa, if_true, Option.some.injEq] at h'
+                subst h'
+                exact ⟨hfa.symm, hs.accept peer frm pkt (drain_not_err hne)⟩
+              · simp only [hfa, if_false] at h'; rw [h] at h'; cases h'
+
+theorem handleOutgoing_creates_not (w : Wg σ Pkt Net) (authz : Id → Option SD) (s : Server σ) (pl : Payload)
+    (to a : Addr) (h : s.tunnels.get? a = none) : (handleOutgoing w authz s pl to).srv.tunnels.get? a = none := by
+  unfold handleOutgoing
+  cases ht : s.tunnels.get? to with
+  | none => exact h
+  | some t0 =>
+    simp only
+    cases ha : authz t0.peerStatic with
+    | none => exact h
+    | some sd0 =>
+      simp only [AMap.get?_insert]
+      by_cases hfa : to = a
+      · subst hfa; rw [ht] at h; cases h
+      · simp only [hfa, if_false]; exact h
+
+theorem step_creates {w : Wg σ Pkt Net} (hs : w.Sound) {s : Sys σ} (op : Op Pkt) (a : Addr) (t' : Tunnel σ)
+    (h : s.srv.tunnels.get? a = none) (h' : (step w s op).1.srv.tunnels.get? a = some t') :
+    ∃ pkt, op = .incoming a pkt ∧ w.signer pkt = some t'.peerStatic := by
+  cases op with
+  | register k i l => simp only [step] at h'; rw [h] at h'; cases h'
+  | advance d => simp only [step] at h'; rw [h] at h'; cases h'
+  | purge => simp only [step] at h'; rw [h] at h'; cases h'
+  | incoming frm pkt =>
+    obtain ⟨e, hsg⟩ := handleIncoming_creates hs _ s.srv pkt frm a t' h h'
+    subst e
+    exact ⟨pkt, rfl, hsg⟩
+  | outgoing to pl =>
+    simp only [step] at h'
+    rw [handleOutgoing_creates_not w _ s.srv pl to a h] at h'; cases h'
+  | tick =>
+    simp only [step, updateTimers] at h'
+    obtain ⟨t0, hm, _, _⟩ := updateTimers_mem (w := w) s.srv.tunnels a t' (AMap.mem_of_get? h')
+    have := (AMap.get?_eq_none_iff s.srv.tunnels a).mp h
+    exact absurd (AMap.mem_keys_of_mem hm) this
+
+/-- every tunnel entry either stems from the start state (`Q`) or was created, at its address, by a datagram in the
+history that was authenticated by the entry's peer static key -/
+theorem run_tunnel_origin {w : Wg σ Pkt Net} (hs : w.Sound) (ops : List (Op Pkt)) :
+    ∀ (Q : Addr → Id → Prop) (s : Sys σ), (AMap.keys s.srv.tunnels).Nodup →
+      (∀ a t, s.srv.tunnels.get? a = some t → Q a t.peerStatic) →
+      ∀ a t, (run w s ops).srv.tunnels.get? a = some t →
+        Q a t.peerStatic ∨
+          ∃ pre pkt post, ops = pre ++ .incoming a pkt :: post ∧ w.signer pkt = some t.peerStatic := by
+  induction ops with
+  | nil => intro Q s _ hq a t h; exact Or.inl (hq a t h)
+  | cons op ops ih =>
+    intro Q s hn hq a t h
+    have hstep : ∀ a t, (step w s op).1.srv.tunnels.get? a = some t →
+        (Q a t.peerStatic ∨ ∃ pkt, op = .incoming a pkt ∧ w.signer pkt = some t.peerStatic) := by
+      intro a t h1
+      cases h0 : s.srv.tunnels.get? a with
+      | some t0 =>
+        left
+        rw [step_peer_stable hn op a t0 t h0 h1]
+        exact hq a t0 h0
+      | none => exact Or.inr (step_creates hs op a t h0 h1)
+    have := ih (fun a p => Q a p ∨ ∃ pkt, op = .incoming a pkt ∧ w.signer pkt = some p)
+      (step w s op).1 (step_tunnels_nodup hn op) hstep a t h
+    rcases this with (hq' | ⟨pkt, hop, hsg⟩) | ⟨pre, pkt, post, hsplit, hsg⟩
+    · exact Or.inl hq'
+    · exact Or.inr ⟨[], pkt, ops, by rw [hop]; rfl, hsg⟩
+    · exact Or.inr ⟨op :: pre, pkt, post, by rw [hsplit]; rfl, hsg⟩
+
+end
+
 /-! ## the executable WireGuard stand-in of the driver satisfies the WireGuard hypothesis -/
 
 namespace GoWg
@@ -812,6 +1140,29 @@ def sound : wg.Sound where
   send t id pl h := by show (send t pl).1.peer = id; rw [send_peer]; exact h
   tick _ _ h := h
   decrypt t id p pl h hr := by rw [← h]; exact recv_decrypt t p pl hr
+  accept id a p h := by
+    cases p with
+    | init signer claimed ts hs =>
+      have h' := h
+      simp only [wg, recv] at h'
+      by_cases h1 : claimed ≠ id
+      · simp [h1] at h'
+      · by_cases h2 : signer ≠ some claimed
+        · simp [h1, h2] at h'
+        · simp only [Decidable.not_not] at h1 h2
+          simp only [wg]; rw [h2, h1]
+    | data signer hs src ridx ctr payload =>
+      exfalso
+      apply h (.tunn eNoCurrentSession)
+      have hs : slot { peer := id, addr := a } ridx = none := by
+        simp only [slot, N_SESSIONS]
+        have hlt : ridx % 8 < 8 := Nat.mod_lt _ (by decide)
+        generalize ridx % 8 = k at hlt
+        have : k = 0 ∨ k = 1 ∨ k = 2 ∨ k = 3 ∨ k = 4 ∨ k = 5 ∨ k = 6 ∨ k = 7 := by omega
+        rcases this with h | h | h | h | h | h | h | h <;> subst h <;> rfl
+      simp only [wg, recv, hs]
+    | other => exact absurd rfl (h _)
+    | junk => exact absurd rfl (h _)
 
 end GoWg
 
